@@ -1483,9 +1483,10 @@ class Evaluator:
             return False
         if isinstance(ex, ast.IfExp) and f.outer is None:
             return False  # the two-return form is folded into an expression for local functions only (methods keep their paths)
-        # an expression without comprehension/lambda
+        # an expression without comprehension/lambda (a local function may hold a comprehension: its bound
+        # names are checked against the arguments where it is folded in)
         for n in ast.walk(ex):
-            if isinstance(n, (ast.Lambda, ast.ListComp, ast.GeneratorExp, ast.SetComp, ast.DictComp)):
+            if isinstance(n, ast.Lambda) or (isinstance(n, (ast.ListComp, ast.GeneratorExp, ast.SetComp, ast.DictComp)) and f.outer is None):
                 return False
         return True
 
@@ -1784,6 +1785,12 @@ class Evaluator:
         expr = self._as_expression(tgt)
         if expr is None:
             return None
+        inner_bound = {n.id for c in ast.walk(expr) if isinstance(c, ast.comprehension) for n in ast.walk(c.target) if isinstance(n, ast.Name)}
+        if inner_bound:
+            from .terms import subterms as _subterms
+
+            if any(x[0] == "bound" and x[1] in inner_bound for v in list(env.values()) for x in _subterms(v)):
+                return None  # an argument mentions a comprehension variable of the same name: no capture-free substitution
         saved_env, saved_func = st.env, self._cur_func
         if tgt.outer is not None:
             for k2, v2 in saved_env.items():
